@@ -152,6 +152,7 @@ type RSim struct {
 	inFlight int32 // Sends between send> and send<
 	gate     sync.RWMutex
 	outCount int32
+	dlvCount int32
 	closedF  int32
 	stalls   int32 // scheduler-health: number of control sleeps that overshot badly
 }
@@ -300,6 +301,7 @@ func (s *RSim) Run() *RResult {
 		return err
 	}
 	s.Sock.OnDelivered = func(svc knxnet.Service) {
+		atomic.AddInt32(&s.dlvCount, 1)
 		e := REv{K: "dlv", Tag: noTag}
 		switch v := svc.(type) {
 		case *knxnet.RoutingInd:
@@ -509,9 +511,16 @@ func (s *RSim) lostAtQuiescence(count, cap int, limit time.Duration) {
 		want = retained
 	}
 	before := atomic.LoadInt32(&s.outCount)
+	dlvBefore := atomic.LoadInt32(&s.dlvCount)
 	s.add(REv{K: "inj", Note: "lostq", N: count, Tag: noTag, Lane: retained})
 	s.Sock.Inject(&knxnet.RoutingLost{Count: uint16(count)})
+	// a sentinel behind it: the serve loop takes the next frame only after it has dealt with the lost
+	// indication (obtained the lock and removed the messages to resend) - only then may senders go on
+	s.Sock.Inject(&knxnet.SearchReq{})
 	deadline := time.Now().Add(limit)
+	for time.Now().Before(deadline) && atomic.LoadInt32(&s.closedF) == 0 && atomic.LoadInt32(&s.dlvCount) < dlvBefore+2 {
+		time.Sleep(100 * time.Microsecond)
+	}
 	for time.Now().Before(deadline) && atomic.LoadInt32(&s.closedF) == 0 {
 		if int(atomic.LoadInt32(&s.outCount)-before) >= want && s.quiesceRetransmit() {
 			break
